@@ -3,4 +3,5 @@ CONSTANTS
 INIT Init
 NEXT Next
 INVARIANT LawRebindExercised
+INVARIANT LawUseExercised
 CHECK_DEADLOCK FALSE
